@@ -301,11 +301,19 @@ def check_C01():
                                                "evaluated by rustc's compile-time interpreter in `const` items on the bound neighbourhood; the `any` family includes the generic Nt<T: Ord>(Vec<T>)"})
 
 
+def sanitizer_sensitive(ad):
+    """string declarations whose validators can change their verdict under the declared sanitizers (a case mapping or trim
+    together with a length rule): where validating the raw instead of the sanitised value shows."""
+    return (ad["fam"] == "string" and any(s_["k"] in ("lowercase", "uppercase", "trim") for s_ in ad["san"])
+            and any(r["k"] in ("len_char_min", "len_char_max", "not_empty") for r in ad["val"]))
+
+
 def check_C03():
     q = tier() == "quick"
-    sizes = {"int": 60, "float": 40, "string": 60, "any": 40} if q else {"int": 300, "float": 200, "string": 300, "any": None}
+    sizes = {"int": 60, "float": 40, "string": 100, "any": 40} if q else {"int": 300, "float": 200, "string": 300, "any": None}
     eps = {"try_from", "from", "try_from_ref", "from_ref", "from_str_s", "default", "try_new", "new"}
-    return run_direct_property("C03", eps, sizes, 30 if q else 200, True, generic_history=True, release_twins=12 if q else 60)
+    return run_direct_property("C03", eps, sizes, 30 if q else 200, True, generic_history=True, release_twins=12 if q else 60,
+                               extra_must=sanitizer_sensitive)
 
 
 def check_C07():
